@@ -1305,4 +1305,52 @@ theorem accepts_iff_50 (s : Text) : (F50NoOption.parse s).isOk = true ↔ ∃ ls
     have : ¬ ls.length > 4 := by have := hn.2.1; omega
     simp [this, hall, Res.isOk]
 
+/-! ### option B (52B, 54B, 55B, 57B): reproduces its input, never panics -/
+
+theorem optB_reproduces (s : Text) (v : OptB) (h : OptB.parse s = .ok v) : OptB.ser v = s := by
+  unfold OptB.parse at h
+  split at h
+  · rename_i he
+    cases h
+    have : s = [] := by simpa using he
+    subst this; rfl
+  · have hj := joinNl_splitNl s
+    split at h
+    · cases h
+    · rename_i l0 rest hsp
+      rw [hsp] at hj
+      split at h
+      · cases h
+      · cases h
+      · rename_i p hp
+        have hl0 := pid_value l0 p hp
+        split at h
+        · cases h; rw [← hj, hl0]; rfl
+        · rename_i loc
+          split at h; · cases h
+          split at h; · cases h
+          split at h
+          · cases h; rw [← hj, hl0]; rfl
+          · cases h
+        · cases h
+      · split at h; · cases h
+        rename_i hre
+        have hr' : rest = [] := by simpa using hre
+        subst hr'
+        split at h; · cases h
+        split at h
+        · rename_i he
+          cases h
+          have : l0 = [] := by simpa using he
+          subst this
+          rw [← hj]; rfl
+        · split at h
+          · cases h; rw [← hj]; rfl
+          · cases h
+
+theorem optB_no_panic (s : Text) : OptB.parse s ≠ .panic := by
+  unfold OptB.parse
+  repeat' split
+  all_goals first | (rename_i hh; exact absurd hh (pid_no_panic _)) | simp
+
 end SwiftMT.Props.C05
